@@ -3,8 +3,8 @@
     stream `c07_otlp` : (c07o L T M)   with L, T, M ∈ absent | idle | done | held | dead
         → f0=<bool> f30=<bool> final=true     (blocking_flush(0), blocking_flush(30 ms) while busy; then, once the
                                                collector answers / the retries are over, blocking_flush(long))
-    stream `c09_otlp` : (c09o N)       N events emitted to the logs signal while its worker is parked
-        → len=<pending> trunc=<count>  (capacity 10000)
+    stream `c09_otlp` : (c09o N SIG)   N events emitted to signal SIG (logs|traces|metrics) while all workers are parked
+        → len=<pending> trunc=<count> others-quiet=true  (capacity 10000; per-signal metrics)
 -/
 import EmitModel.Base.Sexp
 import EmitModel.Model.OtlpE2E
@@ -34,11 +34,13 @@ def runC07o (line : String) : String :=
 
 def runC09o (line : String) : String :=
   match Sexp.parse line with
-  | some (.list [.atom "c09o", n]) =>
+  | some (.list [.atom "c09o", n, .atom sig]) =>
     match n.nat? with
     | some n =>
+      if sig != "logs" && sig != "traces" && sig != "metrics" then "bad-op" else
+      -- the three signals have independent channels (C12 `signals_independent`): the others stay empty
       let r := sendN 10000 n (0, 0)
-      s!"len={r.1} trunc={r.2}\ttrunc={min r.2 3}"
+      s!"len={r.1} trunc={r.2} others-quiet=true\ttrunc={min r.2 3},sig={sig}"
     | none => "bad-op"
   | _ => "bad-op"
 
